@@ -60,6 +60,7 @@ MUTANTS = [
     M('C04-site-times-sym', 'C04', 'C15:operation-times-site', (SITE, '.map(move |sym| sym * transform)', '.map(move |sym| transform * sym)')),
     # C05
     M('C05-guard-removed', 'C05', 'R1/', (OPT, '(None, Some(finish)) if self.kt_start > 0. => {', '(None, Some(finish)) if self.kt_start >= 0. => {')),
+    M('C05-negative-factor', 'C05', 'R1/kt_ratio=Some', (OPT, '(Some(ratio), _) => f64::max(0., 1. - ratio),', '(Some(ratio), _) => 1. - ratio,')),
     M('C05-accept-on-le', 'C05', 'R3/', (OPT, 'threshold < self.energy_surface(new, old, kt)', 'threshold <= self.energy_surface(new, old, kt)')),
     # C06
     M('C06-undo-index-0', 'C06', 'R2/undo-same-index', (OPT, '.get(basis_index)', '.get(0)')),
